@@ -10,3 +10,41 @@ typedef struct { bool fin; WsOpcode opcode; bool masked; uint8_t maskKey[4]; ior
   __CPROVER_loop_invariant(GK < i ==> frame.payload.p[GK] == (uint8_t)(data.p[pos + GK] ^ frame.maskKey[GK % 4])) \
   __CPROVER_loop_invariant(GK >= i && GK < frame.payload.n ==> frame.payload.p[GK] == data.p[pos + GK]) \
   __CPROVER_decreases(frame.payload.n - i))
+
+/* ---- serialize / isValidUtf8 operate on a const frame whose payload is input memory ---- */
+typedef struct { bool fin; WsOpcode opcode; bool masked; uint8_t maskKey[4]; iora_bv payload; } WebSocketFrameIn;
+
+/* wire-format spec of a serialised frame (RFC 6455 5.2), byte k of the output, written from the RFC */
+#define S_N (self->payload.n)
+#define S_EXT (S_N <= 125 ? 0 : (S_N <= 0xFFFF ? 2 : 8))
+#define S_HLEN ((size_t)(2 + S_EXT + (applyMask ? 4 : 0)))
+#define S_B0 ((uint8_t)(self->opcode | (self->fin ? 0x80 : 0)))
+#define S_B1 ((uint8_t)((applyMask ? 0x80 : 0) | (S_N <= 125 ? (uint8_t)S_N : (S_N <= 0xFFFF ? 126 : 127))))
+#define S_EXTBYTE(k) (S_EXT == 2 ? (uint8_t)(S_N >> (8 * (3 - (k)))) : (uint8_t)(S_N >> (8 * (9 - (k)))))
+#define SER_BYTE(k) ((k) == 0 ? S_B0 : (k) == 1 ? S_B1 : (k) < 2 + S_EXT ? S_EXTBYTE(k) : (k) < S_HLEN ? self->maskKey[(k) - 2 - S_EXT] \
+                     : (uint8_t)(self->payload.p[(k) - S_HLEN] ^ (applyMask ? self->maskKey[((k) - S_HLEN) % 4] : 0)))
+
+/* loop 1 of serialize: the eight length bytes of the 64-bit encoding */
+#define IORA_LOOP_WebSocketFrame_serialize_1 IORA_LC( \
+  __CPROVER_assigns(i, out.n, out.gk) \
+  __CPROVER_loop_invariant(-1 <= i && i <= 7 && out.n == (size_t)(2 + (7 - i))) \
+  __CPROVER_loop_invariant(GK < out.n ==> out.gk == SER_BYTE(GK)) \
+  __CPROVER_decreases(i + 1))
+/* loop 2 of serialize: masked payload */
+#define IORA_LOOP_WebSocketFrame_serialize_2 IORA_LC( \
+  __CPROVER_assigns(i, out.n, out.gk) \
+  __CPROVER_loop_invariant(i <= S_N && out.n == S_HLEN + i) \
+  __CPROVER_loop_invariant(GK < out.n ==> out.gk == SER_BYTE(GK)) \
+  __CPROVER_decreases(S_N - i))
+
+/* isValidUtf8: outer scan loop and inner continuation-byte loop */
+#define IORA_LOOP_WebSocketFrame_isValidUtf8_1 IORA_LC( \
+  __CPROVER_assigns(i) \
+  __CPROVER_loop_invariant(i <= self->payload.n) \
+  __CPROVER_decreases(self->payload.n - i))
+#define IORA_LOOP_WebSocketFrame_isValidUtf8_2 IORA_LC( \
+  __CPROVER_assigns(j) \
+  __CPROVER_loop_invariant(1 <= j && j <= seqLen && seqLen <= 4 && i + seqLen <= self->payload.n) \
+  __CPROVER_decreases(seqLen - j))
+/* the outlined loop body (step) keeps its inner loop; it is unwound (bounded by the constant 4) in the plain step proof */
+#define IORA_LOOP_utf8_step_1
